@@ -66,11 +66,16 @@ Record obs := mkObs {
 
 Definition out_code (o : outcome) : nat :=
   match o with Done => 0 | RaisedValue => 1 | RaisedIndex => 2 end%nat.
-Definition err_code (e : list simerr) : nat :=
-  match e with [] => 0 | EIntegration :: _ => 1 | ENoSteady :: _ => 2 end%nat.
+(** [get_result()]: the first recorded error; IntegrationFailure when there is nothing to return *)
+Definition err_code (s : xsim) : nat :=
+  match s_errs s with
+  | EIntegration :: _ => 1
+  | ENoSteady :: _ => 2
+  | [] => match s_vars s, s_pars s with Some _, Some _ => 0 | _, _ => 1 end
+  end%nat.
 
 Definition obs_of (r : xsim * outcome) : obs :=
-  mkObs (out_code (snd r)) (err_code (s_errs (fst r))) (s_vars (fst r)) (s_pars (fst r)).
+  mkObs (out_code (snd r)) (err_code (fst r)) (s_vars (fst r)) (s_pars (fst r)).
 
 Fixpoint list_eqb {A} (e : A -> A -> bool) (a b : list A) : bool :=
   match a, b with
